@@ -68,7 +68,7 @@ def make_jobs(ctx):
                 jobs += pm2.jobs(ctx, ["wasm_int.h", "libm_markers.h"], tag, opts=opts)
     except Undecided as e:      # the translator rejected or crashed on the probe module: the G group is undecided, the E/S contracts still run
         jobs = [undecided_job("G.translate", str(e), ["w2c2 binary on the control-flow probe module"])]
-    jobs += expr_jobs(ctx, ["select", "local_get", "local_get_invalid", "local_assign", "const", "ignored", "br", "br_if", "dispatch", "dead"])
+    jobs += expr_jobs(ctx, ["select", "local_get", "local_get_invalid", "local_assign", "const", "ignored", "br", "br_if", "dispatch", "dead", "function_return"])
     jobs += block_jobs(ctx)
     return jobs
 
